@@ -6,4 +6,5 @@ pub mod walk;
 pub mod bddi;
 pub mod cnfgen;
 pub mod oracle;
+pub mod vtgen;
 pub mod props;
